@@ -62,7 +62,9 @@ def c04(boss, team, **kw):
 
 for b, t in [("idxNull", "off"), ("conNoneNull", "off"), ("off", "idx"), ("off", "idxNull"), ("off", "idxCascade"),
              ("off", "conNone"), ("off", "conNoneNull"), ("off", "conCascade"), ("off", "conCascadeNull"),
-             ("idxNull", "idxCascade"), ("conNoneNull", "conCascadeNull"), ("idxNull", "conCascade")]:
+             ("idxNull", "idxCascade"), ("conNoneNull", "conCascadeNull"), ("idxNull", "conCascade"),
+             # a cascading constraint on a reference into the same store: chains of bosses, a person that is its own boss, cycles
+             ("conCascadeNull", "off")]:
     c04(b, t)
 
 # wide universes for generation only (no exhaustive run): cascades over many referrers inside busy transactions
@@ -71,6 +73,11 @@ family("C04_wide_conCascade", BASE, **FIVE, Teams=fs("t1", "t2"), TeamMode="conC
        Ops=fs("create", "update", "delete", "createTeam", "deleteTeam"), TeamPool=fs("t1", "t2"), FieldSets=Sub("FS_C04"), MaxOps=6)
 family("C04_wide_idxCascade", BASE, **FIVE, Teams=fs("t1", "t2"), TeamMode="idxCascade", BossMode="idxNull",
        Ops=fs("create", "update", "delete", "createTeam", "deleteTeam"), TeamPool=fs("t1", "t2"), BossPool=fs(NIL, "p1"), FieldSets=Sub("FS_C04"), MaxOps=6)
+
+# both references cascade (team -> people -> people): a delete reaches the same person along two ways; DeleteWhere collects its ids first
+family("C04_wide_tree", BASE, **FIVE, Teams=fs("t1"), TeamMode="conCascadeNull", BossMode="conCascadeNull",
+       Ops=fs("create", "update", "delete", "deleteWhere", "createTeam", "deleteTeam"), WhereKinds=fs("all", "name"),
+       TeamPool=fs(NIL, "t1"), BossPool=fs(NIL, "p1", "p2", "p3"), FieldSets=Sub("FS_C04"), MaxOps=7)
 
 # ---- C05: link collections ---------------------------------------------------------------------------------
 C05 = family("C05", BASE, Teams=fs("t1", "t2"),
